@@ -3,15 +3,18 @@
 # stores it under /verif/seeded/Cxx, runs the checks against it (default: the property's own check), removes the worktree.
 P=$1; shift; CHECKS=${*:-$P}
 S=${SEEDSUF:-}   # e.g. SEEDSUF=-2 for a second seeded change of the same property
-W=/tmp/wt/$P; O=/tmp/wt/$P-out
+W=/tmp/wt/$P; O=/tmp/wt/$P-out${OUTSUB:+/$OUTSUB}   # OUTSUB=a|b: round-4 layout (two changes per worktree); KEEPWT=1 keeps the worktree
 [ -f $O/patch.diff ] || { echo "no patch for $P"; exit 2; }
 cd $W || exit 2
 git checkout -q -- src 2>/dev/null; git apply $O/patch.diff || { echo "patch does not apply"; exit 2; }
 mkdir -p tests; cp $O/demo.rs tests/demo_$P.rs
+RUN=$(head -1 $O/demo.rs | sed -n 's,^// RUN: *,,p'); RUN=${RUN:-cargo test --offline --features test-utils --test demo_$P}
 T1=$(cargo test --offline --lib 2>&1 | grep -E "^test result" | head -1)
-D1=$(cargo test --offline --features test-utils --test demo_$P 2>&1 | grep -E "^test result|^error(\[|:)" | head -2 | tr '\n' ' ')
+B1=$(cargo build --offline --no-default-features --features p-256,mlkem-768 2>&1 | grep -cE "^error")
+D1=$($RUN 2>&1 | grep -E "^test result|^error(\[|:)" | head -2 | tr '\n' ' ')
 git apply -R $O/patch.diff
-D0=$(cargo test --offline --features test-utils --test demo_$P 2>&1 | grep -E "^test result|^error(\[|:)" | head -2 | tr '\n' ' ')
+D0=$($RUN 2>&1 | grep -E "^test result|^error(\[|:)" | head -2 | tr '\n' ' ')
+echo "alt build errors with patch: $B1 ; demo command: $RUN"
 echo "existing tests with patch : $T1"; echo "demo with patch           : $D1"; echo "demo without patch        : $D0"
 mkdir -p /verif/seeded/$P$S; cp $O/patch.diff $O/demo.rs /verif/seeded/$P$S/; cp $O/notes.md /verif/seeded/$P$S/notes.md 2>/dev/null
 cd /verif
@@ -35,4 +38,5 @@ meta = {'property': p, 'confirmed': ok, 'existing_tests_with_patch': t1, 'demo_w
 json.dump(meta, open(f'/verif/seeded/{d}/meta.json', 'w'), indent=1)
 print('confirmed' if ok else 'NOT CONFIRMED', '| detected by', sorted(rep) or 'NOTHING')
 PY
-git -C /repo worktree remove --force $W 2>/dev/null; rm -rf $O
+rm -f $W/tests/demo_$P.rs
+[ -n "$KEEPWT" ] || { git -C /repo worktree remove --force $W 2>/dev/null; rm -rf /tmp/wt/$P-out; }
